@@ -60,6 +60,10 @@ pub enum Cause {
     ErrexitCond,
     /// `set -e; true && simexit S` (the last operand of an and-or list is not exempt)
     ErrexitAndOrLast(u8),
+    /// `! exit N`: the shell ends with N, not with its negation
+    BangExit(u8),
+    /// `exec xexit N`: the shell is replaced by a (simulated) program; no EXIT handler runs
+    Exec(u8),
 }
 
 /// Other ways of producing a status than a plain `simexit S`.
@@ -233,6 +237,8 @@ impl Renderer {
                 Cause::ErrexitArith => "set -e\n(( 0 ))".to_string(),
                 Cause::ErrexitCond => "set -e\n[[ a == b ]]".to_string(),
                 Cause::ErrexitAndOrLast(s) => format!("set -e\ntrue && simexit {s}"),
+                Cause::BangExit(n) => format!("! exit {n}"),
+                Cause::Exec(n) => format!("exec xexit {n}"),
             },
         }
     }
@@ -276,6 +282,8 @@ struct Model {
     stdout: String,
     /// set when something whose exact effect we do not model has happened
     inexact_status: bool,
+    /// the shell replaced itself with `exec`
+    execd: bool,
 }
 
 enum Flow {
@@ -360,7 +368,7 @@ impl Model {
                 }
                 if *k == 0 {
                     // still consume the ids of the body
-                    let mut scratch = Model { next: save, events: vec![], stdout: String::new(), inexact_status: false };
+                    let mut scratch = Model { next: save, events: vec![], stdout: String::new(), inexact_status: false, execd: false };
                     let mut s2 = st.clone();
                     let _ = scratch.block(b, &mut s2, false, true);
                     last = scratch.next;
@@ -482,7 +490,11 @@ impl Model {
                 Flow::Continue
             }
             Node::Term(c) => match c {
-                Cause::Exit(Some(n)) => Flow::Terminated(Known::Exactly(*n)),
+                Cause::Exit(Some(n)) | Cause::BangExit(n) => Flow::Terminated(Known::Exactly(*n)),
+                Cause::Exec(n) => {
+                    self.execd = true;
+                    Flow::Terminated(Known::Exactly(*n))
+                }
                 Cause::Exit(None) => {
                     if self.inexact_status {
                         Flow::Terminated(Known::SomeFailure)
@@ -527,7 +539,7 @@ pub struct Expected {
 }
 
 pub fn expected(case: &Case) -> Expected {
-    let mut m = Model { next: 0, events: vec![], stdout: String::new(), inexact_status: false };
+    let mut m = Model { next: 0, events: vec![], stdout: String::new(), inexact_status: false, execd: false };
     let mut st = MState { status: 0, exit_trap: None, errexit: false, depth: 0, err_exit: None, err_failing: None, in_func: false };
     let f = m.block(&case.program, &mut st, true, false);
     let term_status = match f {
@@ -542,6 +554,9 @@ pub fn expected(case: &Case) -> Expected {
         }
     };
     let mut stdout = m.stdout.clone();
+    if m.execd {
+        st.exit_trap = None;
+    }
     if st.exit_trap == Some(Handler::Output) {
         stdout.push_str("bye\n");
     }
@@ -607,10 +622,12 @@ fn gen_block2(rng: &mut Rng, depth: u32, main_ctx: bool, in_eval: bool, in_func:
             }
             7 if main_ctx && !*term && rng.below(3) == 0 => {
                 *term = true;
-                Node::Term(match rng.below(12) {
+                Node::Term(match rng.below(14) {
+                    12 => Cause::Exec(*rng.pick(&[0u8, 3, 7])),
                     8 => Cause::ErrexitAssign(*rng.pick(&[1u8, 3])),
                     9 => match rng.below(2) { 0 => Cause::ErrexitArith, _ => Cause::ErrexitCond },
                     10 => Cause::ErrexitAndOrLast(*rng.pick(&[1u8, 3])),
+                    11 => Cause::BangExit(*rng.pick(&[0u8, 3, 4])),
                     0..=2 => Cause::Exit(Some(*rng.pick(&[0u8, 2, 4, 77]))),
                     3 => Cause::Exit(None),
                     4 => Cause::Errexit(*rng.pick(&[1u8, 3])),
@@ -737,6 +754,7 @@ impl C16 {
             for n in ns.iter_mut() {
                 match n {
                     Node::Term(Cause::Exit(_)) => *n = Node::Term(Cause::Exit(Some(0))),
+                    Node::Term(Cause::BangExit(_)) => *n = Node::Term(Cause::BangExit(0)),
                     Node::TrapExit(Handler::Exits(_) | Handler::Failing) => *n = Node::TrapExit(Handler::ProbeOnly),
                     Node::If(b) | Node::Eval(b) | Node::Brace(b) | Node::CaseArm(b) | Node::WhileRead(b) | Node::Func(b) | Node::Source(b) | Node::For(_, b) | Node::Subshell(b) | Node::CmdSubst(b) | Node::Bg(b) => tame(b),
                     _ => {}
@@ -841,7 +859,8 @@ fn observational(case: &Case, r: &RunResult, script: &str, what: &str) -> Option
         }
     }
     let exits: Vec<&(String, u8, u64)> = o.main.iter().filter(|(t, _, _)| t == "exit_h").collect();
-    let want = if registered.is_some() { 1 } else { 0 };
+    // (`exec` replaces the shell without running the handler)
+    let want = if registered.is_some() && !r.exec_replaced { 1 } else { 0 };
     // a read *error* on the script source is outside the statement: probe only
     let stdin_error = case.cfg.faults.iter().any(|f| matches!(f, Fault::StdinError { .. }));
     if stdin_error {
